@@ -314,22 +314,29 @@ Print Assumptions C09_host_model_HostOK_C02.
    (b) its set_ip_host clause for IPv4 under Host::parse_opaque - the dotted-decimal text of an Ipv4 value is
        read back as a Domain: Url::parse("a://x/") then set_ip_host(127.0.0.1) has host() = Host::Ipv4, while
        Url::parse of its serialization a://127.0.0.1/ has host() = Host::Domain("127.0.0.1");
-   (c) IpOK host_display of C05, which quantifies over values of the model type that are no Ipv4Addr. *)
+   (c) IpOK host_display of C05, which quantifies over values of the model type that are no Ipv4Addr;
+   (d) `forall h, host_disp_ok host_display h`, the gate of C05_components_step for set_host(Some _): Display is
+       the identity on domains, also on texts no parser returns (":"). *)
 Theorem C09_host_records_refuted :
   (forall idna, ~ C02_Reach.HostOK (host_parse idna) host_parse_opaque host_display)
   /\ (forall idna, host_parse idna [] <> Ok (HDomain []))
   /\ (forall a, a < 4294967296 ->
         host_parse_opaque (host_display (HIpv4 a)) = Ok (HDomain (ipv4_display a))
         /\ host_parse_opaque (host_display (HIpv4 a)) <> Ok (HIpv4 a))
-  /\ ~ IpOK host_display.
-Proof. exact (conj model_HostOK_C02_refuted (conj host_parse_nil_refuted (conj opaque_ipv4_refuted model_IpOK_refuted))). Qed.
+  /\ ~ IpOK host_display
+  /\ ~ (forall h, host_disp_ok host_display h).
+Proof.
+  exact (conj model_HostOK_C02_refuted (conj host_parse_nil_refuted (conj opaque_ipv4_refuted
+           (conj model_IpOK_refuted host_disp_ok_all_refuted)))).
+Qed.
 Check C09_host_records_refuted :
   (forall idna, ~ C02_Reach.HostOK (host_parse idna) host_parse_opaque host_display)
   /\ (forall idna, host_parse idna [] <> Ok (HDomain []))
   /\ (forall a, a < 4294967296 ->
         host_parse_opaque (host_display (HIpv4 a)) = Ok (HDomain (ipv4_display a))
         /\ host_parse_opaque (host_display (HIpv4 a)) <> Ok (HIpv4 a))
-  /\ ~ IpOK host_display.
+  /\ ~ IpOK host_display
+  /\ ~ (forall h, host_disp_ok host_display h).
 Print Assumptions C09_host_records_refuted.
 
 (* the opaque half of C09_display_rt without the scalar-value hypothesis: EVERY list of numbers *)
